@@ -41,7 +41,10 @@ Definition chans_ok (w : world) (chs : list chan_obs) : bool :=
 Inductive case :=
 | CSteps (h : list op) (outs : list N) (subs : list (N * N)) (chs : list chan_obs)
 | CRun (h : list op) (raised : N) (consumed : N) (subs : list (N * N)) (chs : list chan_obs)
-| CRunQ (h : list qitem) (raised : N) (consumed : N) (subs : list (N * N)) (chs : list chan_obs).
+| CRunQ (h : list qitem) (raised : N) (consumed : N) (subs : list (N * N)) (chs : list chan_obs)
+(* cross-validation of the harness oracle: what the Python reference expected_view expects for every
+   channel must be what the Coq reference `view` (proved equal to the model, C18_view) computes *)
+| CView (h : list op) (chs : list chan_obs).
 
 Definition check_case (c : case) : bool :=
   match c with
@@ -57,6 +60,9 @@ Definition check_case (c : case) : bool :=
           && list_eqb pair_eqb (subscribers w) subs
           && chans_ok w chs
       end
+  | CView h chs =>
+      forallb (fun o => let s := snd (view (fst o) h) in
+                        N.eqb (c_closes s) (fst (snd o)) && list_eqb msg_eqb (c_rcvd s) (snd (snd o))) chs
   | CRunQ h raised consumed subs chs =>
       match run_q cfg_fixed init h with
       | (w, r, n) =>
